@@ -18,6 +18,9 @@
 //!   spawn    every line is evaluated by a new process (`HIST_MODE=one`), i.e. new hash seeds and a
 //!            fraction table that nobody has forced yet
 //!   one      like fresh, single line given as argv[1..5]
+//!   refs     prints the names of the input's recipe references (`@@name{}`), hex, comma separated
+//! HIST_CWD (any mode): change to this working directory first (ambient perturbation; together with
+//!   changed environment variables it must not change any result)
 //!   threads  the file is a pool; HIST_THREADS threads share ONE Arc<CooklangParser>
 //!            (HIST_EXT, HIST_CONV), wait on a barrier, then evaluate HIST_ITERS pool items each
 //!            (seeded by HIST_SEED and the thread number; the first item of every thread is an `s`
@@ -197,6 +200,13 @@ fn threads_mode(path: &str) {
 }
 
 fn main() {
+    // ambient perturbation: run everything below from another working directory (case files are
+    // given by absolute path); children of `spawn` inherit it together with the environment
+    if let Ok(d) = std::env::var("HIST_CWD") {
+        if !d.is_empty() {
+            std::env::set_current_dir(&d).expect("HIST_CWD");
+        }
+    }
     let mode = std::env::var("HIST_MODE").unwrap_or_else(|_| "hist".into());
     let full = std::env::var("HIST_FULL").map(|v| v == "1").unwrap_or(false);
     let args: Vec<String> = std::env::args().collect();
@@ -219,6 +229,24 @@ fn main() {
                 String::from_utf8(o.stdout).expect("utf8").trim_end().to_string()
             });
         }
+        // names of the recipe references (`@@name{}`) of the input, as the analysis hands them to
+        // ParseOptions::recipe_ref_check: hex names separated by commas, or `-`
+        "refs" => drive(|f| {
+            let p = make_parser(f[2].parse().unwrap(), f[3] == "b");
+            let input = unhex(f[1]);
+            match guarded(|| {
+                p.parse(&input).output().map(|r| {
+                    r.ingredients
+                        .iter()
+                        .filter(|i| i.modifiers().contains(cooklang::Modifiers::RECIPE))
+                        .map(|i| hex(&i.name))
+                        .collect::<Vec<_>>()
+                })
+            }) {
+                Ok(Some(v)) if !v.is_empty() => v.join(","),
+                _ => "-".to_string(),
+            }
+        }),
         "fresh" => drive(|f| {
             let p = make_parser(f[2].parse().unwrap(), f[3] == "b");
             show(&canon(&p, f[0], &unhex(f[1])), full)
